@@ -43,6 +43,45 @@ pub fn extract_z_and_alpha(annotations: &[&str]) -> anyhow::Result<ZAlpha> {
     Ok(z_alpha)
 }
 
+/// Checks the prover messages (`P->V[a:b]: ...` lines) of an annotation stream as a whole, before any of
+/// them is extracted: every such line is well formed (byte range, path, value kind, hexadecimal values),
+/// the byte ranges tile the proof (the first one starts at 0, each one starts where the previous one ended)
+/// and every value accounts for 32 bytes. A removed, duplicated, reordered or garbled line breaks one of
+/// these. Returns the number of proof bytes the messages cover.
+pub fn check_prover_messages(annotations: &[&str]) -> anyhow::Result<usize> {
+    let re = Regex::new(
+        r"^P->V\[(\d+):(\d+)\]: /cpu air/.+: (Field Elements|Field Element|Hash|Data)\((.+)\)$",
+    )
+    .unwrap();
+    let mut next: usize = 0;
+    for line in annotations {
+        if !line.starts_with("P->V") {
+            continue;
+        }
+        let cap = re
+            .captures(line)
+            .ok_or(anyhow::anyhow!("Malformed prover message annotation: {line}"))?;
+        let begin: usize = cap[1].parse()?;
+        let end: usize = cap[2].parse()?;
+        let mut n_values = 0usize;
+        for value in cap[4].split(',') {
+            let value = value.trim();
+            let digits = value.strip_prefix("0x").unwrap_or(value);
+            anyhow::ensure!(
+                !digits.is_empty() && digits.bytes().all(|b| b.is_ascii_hexdigit()),
+                "Unable to parse annotation value {value}"
+            );
+            n_values += 1;
+        }
+        anyhow::ensure!(
+            begin == next && n_values.checked_mul(32).and_then(|n| n.checked_add(begin)) == Some(end),
+            "Prover message annotations do not tile the proof at byte {next}: {line}"
+        );
+        next = end;
+    }
+    Ok(next)
+}
+
 pub fn extract_annotations(
     annotations: &[&str],
     prefix: &str,
